@@ -289,6 +289,7 @@ func init() {
 			text, form := renderDoc(d, i)
 			a, derr := decodeText(text)
 			if derr != nil {
+				oracleFail("C04", "document-rejected", sx.L(sx.A(form), sx.A(text)), "a generated, well-formed document does not decode: "+derr.Error())
 				continue
 			}
 			el := sx.List{}
